@@ -35,3 +35,5 @@ FUNCTIONS = FUNCTIONS + [M + 'match_contains']
 FUNCTIONS = FUNCTIONS + [q for q in KIDS if q not in FUNCTIONS]
 
 VALIDATION = [validate_bs4]
+
+FUNCTIONS = FUNCTIONS + [q for q in CACHE if q not in FUNCTIONS]
